@@ -3,6 +3,7 @@ package rules
 import (
 	"fmt"
 	"go/token"
+	"go/types"
 	"sort"
 	"strings"
 
@@ -187,12 +188,65 @@ func c03ValidURL(c *Ctx, F *model.Fields, rejectRule string) {
 	recv := fn.Params[0]
 	fl := func(role string) *pa.F { return A.Lit(recv.Name() + "." + F.Get(role)) }
 	RPU, AR := fl("requireParseableURLs"), fl("allowRelativeURLs")
-	var errNil, schemeEmpty, mapokS, len0pol, msRe, dyn, strEmpty, ws, dataPfx []int
+	var errNil, schemeEmpty, mapokS, len0pol, msRe, dyn, strEmpty, ws, wsNeg, dataPfx []int
 	wsSeen := map[string]bool{}
 	var parse *ssa.Call
+	// index-style searches: strings.IndexFunc/IndexAny/IndexRune/IndexByte/Index(url, …) compared with 0 or -1; the atom
+	// is true when nothing was found
+	indexSearch := func(v ssa.Value) bool {
+		cl, ok := v.(*ssa.Call)
+		if !ok || cl.Common().StaticCallee() == nil || len(cl.Common().Args) != 2 {
+			return false
+		}
+		hit := false
+		arg := cl.Common().Args[1]
+		switch pa.CalleeName(cl.Common().StaticCallee()) {
+		case "strings.IndexAny", "strings.Index":
+			if k, ok := constString(arg); ok {
+				for _, ch := range []string{" ", "\t", "\n"} {
+					if (pa.CalleeName(cl.Common().StaticCallee()) == "strings.IndexAny" && strings.Contains(k, ch)) || k == ch {
+						wsSeen[ch], hit = true, true
+					}
+				}
+			}
+		case "strings.IndexRune", "strings.IndexByte":
+			if k, ok := arg.(*ssa.Const); ok && k.Value != nil {
+				if ch := string(rune(k.Int64())); ch == " " || ch == "\t" || ch == "\n" {
+					wsSeen[ch], hit = true, true
+				}
+			}
+		case "strings.IndexFunc":
+			// the predicate is folded on each of the three characters
+			var pf *ssa.Function
+			switch f := arg.(type) {
+			case *ssa.Function:
+				pf = f
+			case *ssa.MakeClosure:
+				if len(f.Bindings) == 0 {
+					pf, _ = f.Fn.(*ssa.Function)
+				}
+			}
+			if pf != nil {
+				for _, ch := range []rune{' ', '\t', '\n'} {
+					if res, ok := foldRunePredicate(pf, ch); ok && res {
+						wsSeen[string(ch)], hit = true, true
+					}
+				}
+			}
+		}
+		return hit
+	}
 	for i, at := range A.Atoms {
 		switch at.Kind {
+		case "lt":
+			// IndexX(url, …) < 0  — true when nothing was found
+			if k, ok := at.Y.(*ssa.Const); ok && k.Value != nil && k.Int64() == 0 && indexSearch(at.X) {
+				wsNeg = append(wsNeg, i)
+			}
 		case "eq":
+			if k, ok := at.Y.(*ssa.Const); ok && k.Value != nil && !k.IsNil() && k.Type().Underlying().String() == "int" && k.Int64() == -1 && indexSearch(at.X) {
+				wsNeg = append(wsNeg, i)
+			}
 			if t := extractOf(at.X, 1); t != nil && isCallTo(t, "url.Parse") != nil {
 				if k, ok := at.Y.(*ssa.Const); ok && k.IsNil() {
 					errNil = append(errNil, i)
@@ -279,7 +333,7 @@ func c03ValidURL(c *Ctx, F *model.Fields, rejectRule string) {
 		}
 	}
 	if rejectRule != "" {
-		c03Rejects(c, A, fn, rejectRule, RPU, AR, errNil, schemeEmpty, mapokS, len0pol, strEmpty, ws, dataPfx)
+		c03Rejects(c, A, fn, rejectRule, RPU, AR, errNil, schemeEmpty, mapokS, len0pol, strEmpty, wsFound(ws, wsNeg), dataPfx)
 		return
 	}
 	for _, k := range []string{" ", "\t", "\n"} {
@@ -294,7 +348,7 @@ func c03ValidURL(c *Ctx, F *model.Fields, rejectRule string) {
 		pa.And(nE, pa.Not(orAtoms(mapokS)), orAtoms(msRe)),
 		pa.And(orAtoms(schemeEmpty), AR, pa.Not(orAtoms(strEmpty))),
 	))
-	wsOK := pa.Or(pa.Not(orAtoms(ws)), orAtoms(dataPfx))
+	wsOK := pa.Or(pa.Not(wsFound(ws, wsNeg)), orAtoms(dataPfx))
 	track := map[int]bool{}
 	for _, f := range []*pa.F{RPU, accept, wsOK} {
 		f.Atoms(track)
@@ -688,7 +742,7 @@ func c03Options(c *Ctx, F *model.Fields, spec *urlSpec) {
 // a parse error, a scheme (non-empty) that the scheme table / patterns / custom checks do not admit, or a scheme-less
 // URL while relative URLs are off or the re-serialised URL is empty.  Any other rejecting path removes URLs that the
 // policy allows (conforming documents no longer pass unchanged).
-func c03Rejects(c *Ctx, A *pa.Analysis, fn *ssa.Function, rule string, RPU, AR *pa.F, errNil, schemeEmpty, mapokS, len0pol, strEmpty, ws, dataPfx []int) {
+func c03Rejects(c *Ctx, A *pa.Analysis, fn *ssa.Function, rule string, RPU, AR *pa.F, errNil, schemeEmpty, mapokS, len0pol, strEmpty []int, ws *pa.F, dataPfx []int) {
 	R := c.R
 	if len(errNil) == 0 || len(schemeEmpty) == 0 {
 		R.Unknown(rule, "validURL-reject:roles", "(*Policy).validURL", c.P.Pos(fn.Pos()), "anchor lost: the parse-error test or the empty-scheme test of validURL was not recognised")
@@ -696,7 +750,7 @@ func c03Rejects(c *Ctx, A *pa.Analysis, fn *ssa.Function, rule string, RPU, AR *
 	}
 	E := orAtoms(schemeEmpty)
 	reasons := pa.Or(
-		pa.And(orAtoms(ws), pa.Not(orAtoms(dataPfx))),
+		pa.And(ws, pa.Not(orAtoms(dataPfx))),
 		pa.Not(orAtoms(errNil)),
 		pa.And(pa.Not(E), pa.Not(orAtoms(mapokS))),
 		pa.And(pa.Not(E), orAtoms(mapokS), pa.Not(orAtoms(len0pol))),
@@ -737,4 +791,153 @@ func c03Rejects(c *Ctx, A *pa.Analysis, fn *ssa.Function, rule string, RPU, AR *
 		R.Check(ok1, rule, key, cons, c.P.Pos(ret.Pos()), "rejects only for a tabled reason (white space, parse error, scheme not admitted, relative URLs off, empty URL)", "a URL the policy allows can be rejected: this return is reachable with no tabled reason for rejection: ["+cex+"]")
 	}
 	R.Role(rule, "rejecting returns of validURL", n, 1)
+}
+
+// wsFound: "the URL contains white space" — a positive containment test is true, or an index-style search did not
+// come back empty-handed.
+func wsFound(pos, neg []int) *pa.F {
+	fs := []*pa.F{orAtoms(pos)}
+	for _, a := range neg {
+		fs = append(fs, pa.Not(pa.AtomF(a)))
+	}
+	return pa.Or(fs...)
+}
+
+// foldRunePredicate folds a func(rune) bool of the module on one constant argument: comparisons of the parameter with
+// constants, boolean φs, branches, unicode.IsSpace.  ok is false when the body uses anything else.
+func foldRunePredicate(fn *ssa.Function, r rune) (res, ok bool) {
+	if len(fn.Params) != 1 || len(fn.Blocks) == 0 {
+		return false, false
+	}
+	type val struct {
+		i    int64
+		b    bool
+		isB  bool
+		know bool
+	}
+	env := map[ssa.Value]val{fn.Params[0]: {i: int64(r), know: true}}
+	get := func(v ssa.Value) val {
+		if k, isC := v.(*ssa.Const); isC && k.Value != nil {
+			if bt, isBasic := k.Type().Underlying().(*types.Basic); isBasic && bt.Info()&types.IsBoolean != 0 {
+				return val{b: k.Value.String() == "true", isB: true, know: true}
+			}
+			if bt, isBasic := k.Type().Underlying().(*types.Basic); isBasic && bt.Info()&types.IsInteger != 0 {
+				return val{i: k.Int64(), know: true}
+			}
+			return val{}
+		}
+		return env[v]
+	}
+	b := fn.Blocks[0]
+	var prev *ssa.BasicBlock
+	for steps := 0; steps < 400; steps++ {
+		var next *ssa.BasicBlock
+		for _, in := range b.Instrs {
+			switch x := in.(type) {
+			case *ssa.Phi:
+				for i, p := range b.Preds {
+					if p == prev {
+						env[x] = get(x.Edges[i])
+					}
+				}
+			case *ssa.BinOp:
+				l, rr := get(x.X), get(x.Y)
+				if !l.know || !rr.know {
+					return false, false
+				}
+				var out val
+				out.know = true
+				if l.isB && rr.isB {
+					out.isB = true
+					switch x.Op {
+					case token.EQL:
+						out.b = l.b == rr.b
+					case token.NEQ:
+						out.b = l.b != rr.b
+					default:
+						return false, false
+					}
+				} else if !l.isB && !rr.isB {
+					switch x.Op {
+					case token.EQL:
+						out.isB, out.b = true, l.i == rr.i
+					case token.NEQ:
+						out.isB, out.b = true, l.i != rr.i
+					case token.LSS:
+						out.isB, out.b = true, l.i < rr.i
+					case token.LEQ:
+						out.isB, out.b = true, l.i <= rr.i
+					case token.GTR:
+						out.isB, out.b = true, l.i > rr.i
+					case token.GEQ:
+						out.isB, out.b = true, l.i >= rr.i
+					default:
+						return false, false
+					}
+				} else {
+					return false, false
+				}
+				env[x] = out
+			case *ssa.UnOp:
+				v := get(x.X)
+				if x.Op != token.NOT || !v.know || !v.isB {
+					return false, false
+				}
+				env[x] = val{b: !v.b, isB: true, know: true}
+			case *ssa.Convert, *ssa.ChangeType:
+				var src ssa.Value
+				if cv, isCv := x.(*ssa.Convert); isCv {
+					src = cv.X
+				} else {
+					src = x.(*ssa.ChangeType).X
+				}
+				v := get(src)
+				if !v.know || v.isB {
+					return false, false
+				}
+				env[x.(ssa.Value)] = v
+			case *ssa.Call:
+				cal := x.Common().StaticCallee()
+				if cal == nil || pa.CalleeName(cal) != "unicode.IsSpace" || len(x.Common().Args) != 1 {
+					return false, false
+				}
+				v := get(x.Common().Args[0])
+				if !v.know || v.isB {
+					return false, false
+				}
+				sp := false
+				switch v.i {
+				case ' ', '\t', '\n', '\v', '\f', '\r', 0x85, 0xA0:
+					sp = true
+				}
+				env[x] = val{b: sp, isB: true, know: true}
+			case *ssa.If:
+				v := get(x.Cond)
+				if !v.know || !v.isB {
+					return false, false
+				}
+				if v.b {
+					next = b.Succs[0]
+				} else {
+					next = b.Succs[1]
+				}
+			case *ssa.Jump:
+				next = b.Succs[0]
+			case *ssa.Return:
+				v := get(x.Results[0])
+				if !v.know || !v.isB {
+					return false, false
+				}
+				return v.b, true
+			case *ssa.DebugRef:
+			default:
+				return false, false
+			}
+		}
+		if next == nil {
+			return false, false
+		}
+		prev, b = b, next
+	}
+	return false, false
 }
